@@ -19,7 +19,8 @@
      * `oracle_covers_every_order`: every permutation of an object's members is chosen by some oracle.
      * `oracle_strict` (whole evaluator, no object enumeration, hashes and `let`s of any size):
        `ieval = .ok r → ∀ π, ievalO π = .ok r`, and `ieval = .err cs → ∀ π, ∃ c ∈ cs, ievalO π = .err [c]`.
-     * `PermEnum` and `oracle_enum` (expressions that DO enumerate objects, covered constructs see `nodeOkE`):
+     * `PermEnum` and `oracle_enum` (expressions that DO enumerate objects; every node type and every builtin except
+       `sum`, `avg`, `max`, `min`, see `nodeOkE`, `max_not_covered`):
        `ieval = .ok r → ∀ π, ∃ r', ievalO π = .ok r' ∧ PermEnum r r'`; `oracle_enum_definite`: if `r` contains no
        map-ordered array then `r' = r`.
      * `projectArray_err_any_order`, `projectObject_err_any_order`: the error half for projections over a map-ordered
@@ -314,17 +315,21 @@ example (π : Oracle) : evaluateO π hash2 (.obj [([0x78], .bool true)]) =
     them) replaced by a plain array holding the same elements, recursively related, in some order. -/
 abbrev PermEnum (r r' : Val) : Prop := Conc r r'
 
-/-- the covered class: literals without map-ordered arrays, distinct member keys, and no construct outside the
-    coverage of `INode.coveredE` / `Fn.coveredE` (not covered: `sum`, `avg`, `max`, `min`, `from_items`, `sort_by`,
-    `max_by`, `min_by`, `group_by`, `zip`) -/
+/-- the covered class: literals without map-ordered arrays, distinct member keys (guaranteed by the parser), and none
+    of the four builtins `sum`, `avg`, `max`, `min` (`Fn.coveredM`; see `max_not_covered` for why). Every node type
+    is covered. -/
 def EnumOK (n : INode) : Bool := n.all nodeOkE
 
 /-- **Oracle theorem, enumerating part.** For every covered expression — object wildcards, `keys`, `values`, `items`,
     projections, filters, flattening, slices and indexes, pipes, multi-select lists and hashes, `let`, `sort`,
-    comparisons, arithmetic, the string builtins, `length`, `reverse`, `contains`, `join`, `to_string`, `to_array`,
-    `map`, `merge`, `not_null`, … — if the model's outcome is the value `r`, then EVERY run (every choice of the map
+    `sort_by`, `max_by`, `min_by`, `group_by`, `map`, `merge`, `not_null`, `zip`, `from_items`, comparisons,
+    arithmetic, the string builtins, `length`, `reverse`, `contains`, `join`, `to_string`, `to_array`, … (everything
+    but `sum`, `avg`, `max`, `min`) — if the model's outcome is the value `r`, then EVERY run (every choice of the map
     iteration orders, independently at every enumeration) yields a value `r'` equal to `r` up to the order of the
-    enumerated arrays. -/
+    enumerated arrays. In particular this validates the model's side conditions: `sort_by` answers on a map-ordered
+    array only for pairwise distinct keys, `max_by`/`min_by` only for a unique extremal key, `from_items` only without
+    duplicate keys, `sort` only without ambiguous ties, `==`/`contains`/`to_string`/`join`/index/slice/`zip` only
+    when no map-ordered array of two or more elements is involved. -/
 theorem oracle_enum {root cur : Val} {env : Env} {n : INode}
     (hroot : root.NoEnum = true) (hcur : cur.NoEnum = true) (henv : Env.NoEnum env = true) (hn : EnumOK n = true)
     {r : Val} (h : ieval root n cur env = .ok r) :
@@ -441,5 +446,76 @@ example (π : Oracle) : ∃ c' ∈ [Cat.invalidType],
       intro kv hkv
       simp only [List.mem_cons, List.not_mem_nil, or_false] at hkv
       rcases hkv with rfl | rfl <;> exact trivial) rfl π
+
+/-! ### at the level of `Search` -/
+
+/-- `Search` / `Compile` + `Expression.Search` in the run described by `π` -/
+def searchO (π : Oracle) (expr : Bytes) (data : Val) : Res Val :=
+  match Parser.parse expr with
+  | .error .fuel => .unmodelled "parser fuel"
+  | .error e => .err [parseCat e]
+  | .ok n => evaluateO π n data
+
+/-- **C15 for `Search`, strict part**: an expression whose compiled form does not enumerate object members has, on a
+    JSON document, the same outcome in every run: equal values, and a reported fault among those the model lists.
+    Failures of `Compile` do not depend on the document or on `π` at all. -/
+theorem search_oracle_strict {expr : Bytes} {d : Val} (hd : d.NoEnum = true)
+    (hn : ∀ n, compile expr = .ok n → StrictOK n = true) :
+    search expr d ≠ .nondet ∧
+    (∀ r, search expr d = .ok r → ∀ π : Oracle, searchO π expr d = .ok r) ∧
+    (∀ cs, search expr d = .err cs → ∀ π : Oracle, ∃ c ∈ cs, searchO π expr d = .err [c]) := by
+  unfold search searchO
+  unfold compile at hn
+  cases hp : Parser.parse expr with
+  | ok n => exact evaluate_oracle_strict hd (hn n hp)
+  | error e =>
+    cases e <;> refine ⟨by simp, by simp, ?_⟩ <;> intro cs h π <;> cases h <;> exact ⟨_, by simp, rfl⟩
+
+/-- **C15 for `Search`, enumerating part**: equality up to the order of the enumerated arrays. -/
+theorem search_oracle_enum {expr : Bytes} {d : Val} (hd : d.NoEnum = true)
+    (hn : ∀ n, compile expr = .ok n → EnumOK n = true) {r : Val} (h : search expr d = .ok r) :
+    ∀ π : Oracle, ∃ r', searchO π expr d = .ok r' ∧ PermEnum r r' := by
+  unfold search at h
+  unfold searchO
+  unfold compile at hn
+  cases hp : Parser.parse expr with
+  | ok n =>
+    rw [hp] at h
+    exact evaluate_oracle_enum hd (hn n hp) h
+  | error e =>
+    rw [hp] at h
+    cases e <;> cases h
+
+/-! ### why `max` / `min` (and `sum` / `avg`) are not covered -/
+
+/-- `{"a": 1.0, "b": 1}` with the two numbers given as `decimal128` values of equal value and different
+    representation (coefficient 10, exponent -1 / coefficient 1, exponent 0) -/
+def decDoc : Val := .obj [([0x61], .num (.dec (.fin false 10 (-1)))), ([0x62], .num (.dec (.fin false 1 0)))]
+def pMaxValues : INode := .call .max [.call .values [.current]]
+
+/-- **Why `max`/`min` are excluded.** `max` of numbers returns the decimal of the FIRST greatest element. On a
+    map-ordered array with two numbers of equal value but different representation the two runs return different
+    `Val`s (both print as `1`), although the model — which only excludes NaN (`decsOrderFree`) — answers `.ok`. Such
+    values cannot come from a JSON document (`Dec.parse` normalises), only from `decimal128` values passed in by a Go
+    caller. `PermEnum` compares numbers structurally, so the oracle theorem does not extend to `max`/`min`;
+    `sum`/`avg` would need the exactness of decimal sums (`sumOrderFree`), an arithmetic fact not proved here. -/
+theorem max_not_covered :
+    evaluate pMaxValues decDoc = .ok (.num (.dec (.fin false 10 (-1)))) ∧
+    evaluateO reverseOracle pMaxValues decDoc = .ok (.num (.dec (.fin false 1 0))) ∧
+    toStringV (.num (.dec (.fin false 10 (-1)))) = toStringV (.num (.dec (.fin false 1 0))) := by
+  exact ⟨rfl, rfl, rfl⟩
+
+/-! examples with the expression-argument functions -/
+/-- `sort_by(values(@), &@)`, `max_by(values(@), &@)`, `group_by(values(@), &@)` -/
+def pSortByValues : INode := .sortBy (.call .values [.current]) .current
+def pMaxByValues : INode := .maxBy (.call .values [.current]) .current
+def pGroupByKeys : INode := .groupBy (.call .keys [.current]) .current
+example : EnumOK pSortByValues = true := by decide
+example : EnumOK pMaxByValues = true := by decide
+example : EnumOK pGroupByKeys = true := by decide
+example : EnumOK pMaxValues = false := by decide
+/-- `max_by(values({"a": 1, "b": 2}), &@)` is `2` in every run -/
+example (π : Oracle) : evaluateO π pMaxByValues ab = .ok (.num (.jnum [0x32])) :=
+  oracle_enum_definite (d := ab) (n := pMaxByValues) (by decide) (by decide) rfl (by decide) π
 
 end Jmes.C15B
